@@ -676,6 +676,12 @@ def cli_cases(g, group, thorough):
         for special in ["", "\n", ";", "start:", "start: hlt", "\"", "[[[[", "9" * 5000, "start:\nmov ax, " + "9" * 100000 + "\n", "a:" * 2000,
                         "start:\n" + "nop\n" * 5000, "db \"" + "x" * 70000 + "\"\nstart:\n"]:
             out.append(("-", special, ""))
+        # the smallest programs, stepped: nothing / one instruction after `start:`
+        for tiny in ["start:", "start:\n", "start: hlt", "start:\nhlt\n", "start:\nnop", "start:\nprint reg", "x: db 1\nstart:\n", "def f {\n}\nstart:\n",
+                     "start:\ncall f\ndef f {\n}\n", "macro m(a) -> <-\nstart:\nm(ax)\n"]:
+            out.append(("i", tiny, "n\n" * 5))
+            out.append(("i", tiny, ""))
+            out.append(("i", tiny, "print reg\nq\n"))
     elif group == "strings":
         # C07 through the real run loop: every string mnemonic x width x DF x prefix, driven by the binary's own
         # REPEAT handling to completion; conditional repeats over data that stops them early, late or never
